@@ -1338,6 +1338,22 @@ static void c10_steady_plan(Rng &rng, Plan &p) {
     p.cfg.set("c10_group", g); p.cfg.set("c10_period", period);
     size_t mean = (size_t) rng.range(8, 400);
     auto emit = [&](int d, long a, long b) { long pos = a; while (pos < b) { long len = std::min<long>(b - pos, (long) rng.geom(mean)); Op op; op.kind = d ? 'S' : 'Q'; op.n = len; p.ops.push_back(op); pos += len; } };
+    if (rng.chance(1, 3)) {
+        // sliding window instead of groups: the client keeps w requests in flight and every response chunk ends *inside* the next
+        // response, so neither direction is ever idle between calls (slot recycling and disposal have to work with a transaction
+        // in progress on both sides all the time)
+        p.scenario = "steady+sliding";
+        int w = g + 1; size_t n_x = cp.xchg.size(), qn = 0; long rpos = 0;
+        auto send_reqs_upto = [&](size_t k) { while (qn < n_x && qn <= k) { emit(0, cp.xchg[qn].req.a, cp.xchg[qn].req.b); qn++; } };
+        for (size_t k = 0; k < n_x; k++) {
+            send_reqs_upto(k + (size_t) w);
+            long target = cp.xchg[k].res.b;
+            if (k + 1 < n_x) { long nl = cp.xchg[k + 1].res.b - cp.xchg[k + 1].res.a; if (nl > 1) target += 1 + (long) rng.below((uint64_t) (nl - 1)); }
+            if (target > rpos) { emit(1, rpos, target); rpos = target; }
+        }
+        p.cfg.set("c10_group", w + 1);
+        return;
+    }
     for (size_t i = 0; i < cp.xchg.size(); i += (size_t) g) {
         size_t e = std::min(cp.xchg.size(), i + (size_t) g);
         emit(0, cp.xchg[i].req.a, cp.xchg[e - 1].req.b);
@@ -1349,9 +1365,21 @@ static bool check_c10_steady(const Plan &p, const RunResult &r, std::string &ora
     size_t n = r.live_after_tx.size();
     size_t sent = p.conns[0].xchg.size();
     if (n != sent) { oracle = "C10.steady.tx_count"; detail = strfmt("%zu exchanges, %zu TRANSACTION_COMPLETE", sent, n); return false; }
+    if (getenv("VERIF_C10_TRACE")) { printf("C10TRACE"); for (size_t i = 0; i < n; i++) printf(" %lld", (long long) r.live_after_tx[i]); printf("\n"); }
     size_t lcm = (size_t) p.cfg.get("c10_period", 1) * (size_t) p.cfg.get("c10_group", 1);
     size_t warm = std::max<size_t>(64, 4 * lcm);
     if (n < warm * 2) return true;
+    if (p.scenario.find("sliding") != std::string::npos) {
+        // sliding window: which transactions are alive at a completion depends on where the chunk ends fell (one more or less in
+        // flight is several KB), so single samples spike. A leak lifts the floor: compare medians of an early and a late window
+        // (the last few completions, where the window drains, are left out).
+        auto median = [&](size_t a, size_t b) { std::vector<int64_t> v(r.live_after_tx.begin() + (long) a, r.live_after_tx.begin() + (long) b); std::sort(v.begin(), v.end()); return v[v.size() / 2]; };
+        size_t q = n / 4, tail = std::min<size_t>(16, n / 16);
+        int64_t m1 = median(warm / 2, warm / 2 + q), m2 = median(n - tail - q, n - tail);
+        if (m2 > m1 + 4096) { oracle = "C10.steady.heap_grows_with_transactions"; detail = strfmt("median live heap over tx %zu..%zu: %lld bytes; over tx %zu..%zu: %lld bytes", warm / 2, warm / 2 + q, (long long) m1, n - tail - q, n - tail, (long long) m2); return false; }
+        if (r.conns[0].final_tx_list_size > 64) { oracle = "C10.steady.transaction_list_grows"; detail = strfmt("list holds %ld slots after %zu transactions", r.conns[0].final_tx_list_size, n); return false; }
+        return true;
+    }
     int64_t base = 0; for (size_t i = 8; i < warm; i++) base = std::max(base, r.live_after_tx[i]);
     for (size_t i = warm; i < n; i++) if (r.live_after_tx[i] > base + 4096) {
         oracle = "C10.steady.heap_grows_with_transactions"; detail = strfmt("live heap after tx %zu: %lld bytes; maximum over the warm-up (tx 8..%zu): %lld bytes", i, (long long) r.live_after_tx[i], warm, (long long) base); return false;
